@@ -324,6 +324,15 @@ def judge(case):
         sample = dict(skind=skind, pkind=pkind, sparams=sparams, iteration=results["kwargs"][0])
         return verdict_ok(nontrivial=bool(nontrivial), classes=classes, sample=sample)
     finally:
+        # close Orbax managers (each owns background threads; hundreds of them per process end in a crash)
+        for s_ in list(locals().get("solvers", {}).values()):
+            m_ = getattr(s_, "checkpoint_manager", None)
+            if m_ is not None:
+                try:
+                    m_.wait_until_finished()
+                    m_.close()
+                except Exception:
+                    pass
         if tmp:
             shutil.rmtree(tmp, ignore_errors=True)
 
